@@ -57,6 +57,9 @@ def optima_qtt(Y, k=100, e=1.E-12, r=100):
     y_min = teneva.get(Y, i_min)
     y_max = teneva.get(Y, i_max)
 
+    if y_min > y_max:
+        i_min, y_min, i_max, y_max = i_max, y_max, i_min, y_min
+
     return i_min, y_min, i_max, y_max
 
 
